@@ -7,7 +7,8 @@ EXPLANATION = (
     "stored angle in [-pi, pi] and differing from the exact angle by an integer multiple of 2*pi (the wrap is executed "
     "through its a - m*k contract); every SE(3) pose produced by +, -, inverse, copy, boxplus (both branches of the norm "
     "test) from unit-quaternion operands has |q|^2 = 1 (this is the inductive step for chains of any length and for any "
-    "number of optimiser iterations); normalize() (both sign branches, arbitrary non-zero quaternion) yields unit norm, "
+    "number of optimiser iterations), and for ARBITRARY quaternions |q_out|^2 = |q_a|^2 |q_b|^2 (no operation amplifies a "
+    "deviation from unit norm, so rounding deviations accumulate additively); normalize() (both sign branches, arbitrary non-zero quaternion) yields unit norm, "
     "w >= 0 and the same rotation matrix. Floating-point model (fpwrap cases): util.neg_pi_to_pi is executed on IEEE "
     "binary64 terms (z3 FloatingPoint, C fmod modelled exactly through fp.rem) and the result is proved to lie in the "
     "closed interval [-pi, pi] for every finite |a| <= 1e6."
@@ -78,6 +79,37 @@ def _se3(op):
     return fn
 
 
+def _se3_norm_product(op):
+    """|q_out|^2 = |q_a|^2 |q_b|^2 for ARBITRARY (not necessarily unit) quaternions: a deviation from unit norm is never
+    amplified by an operation, so rounding deviations accumulate additively over chains of any length"""
+
+    def fn(P, g):
+        qa, qb = P.reals("qa", 4), P.reals("qb", 4)
+        a = g.PoseSE3(P.reals("ta", 3), qa)
+        b = g.PoseSE3(P.reals("tb", 3), qb)
+        na = qa[0] * qa[0] + qa[1] * qa[1] + qa[2] * qa[2] + qa[3] * qa[3]
+        nb = qb[0] * qb[0] + qb[1] * qb[1] + qb[2] * qb[2] + qb[3] * qb[3]
+        if op == "add":
+            res, expect = a + b, na * nb
+        elif op == "sub":
+            res, expect = a - b, na * nb
+        elif op == "inverse":
+            res, expect = a.inverse, na
+        elif op == "copy":
+            res, expect = a.copy(), na
+        elif op == "iadd":
+            res = a.copy()
+            res += b
+            expect = na * nb
+        elif op == "boxplus":
+            d = P.vector("d", 6, lo=-0.5, hi=0.5)  # |d_v|^2 <= 0.75: the sqrt branch of the norm test
+            res, expect = a + d, na
+        q = res[3:]
+        P.check_eq("norm_is_multiplicative", q[0] * q[0] + q[1] * q[1] + q[2] * q[2] + q[3] * q[3], expect, tol=1e-9)
+
+    return fn
+
+
 def _rot(x, y, z, w):
     return [
         [w * w + x * x - y * y - z * z, 2 * (x * y - z * w), 2 * (x * z + y * w)],
@@ -133,5 +165,7 @@ def cases(tier):
         out.append(Case("se2-" + op, _se2(op), timeout=20, validate=v))
     for op in ["add", "sub", "inverse", "copy", "boxplus", "iadd"]:
         out.append(Case("se3-" + op, _se3(op), timeout=20, old_timeout=40, validate=v))
+    for op in ["add", "sub", "inverse", "copy", "boxplus", "iadd"]:
+        out.append(Case("se3-normproduct-" + op, _se3_norm_product(op), timeout=20, old_timeout=40, validate=v))
     out.append(Case("se3-normalize", _normalize, timeout=30, old_timeout=60, validate=v))
     return out
